@@ -266,6 +266,7 @@ func (ir *isoReplayer) cleanup() {
 
 // CheckC02: snapshot isolation.
 func CheckC02(r *core.Run) {
+	defer exploreTx(r)()
 	r.Rule = "interleavings = the maximal paths of the LockReplay state graph (every transition of 2 readers x 2 writers incl. all commit steps, blocked and woken acquisitions) generated by TLC; each path is replayed on a real File with real data (allocations, overwrites of committed pages, frees, Flush, CheckpointWAL, failing commits) behind goroutine gates, every active reader reads its whole snapshot after every step; TxTrace.tla judges every read against the snapshot taken at BeginR, the exclusivity of the in-memory switch and the reader count; distinct = replayed paths"
 	r.Assume("data-race freedom is not decided by the specification; a race-detector build of a free-running reader/writer stress is executed in addition")
 	gen, err := core.RunTLC(r.Scratch, core.TLCOpts{Module: "LockReplay", Config: "LockReplay_q.cfg", Workers: 1, Timeout: 20 * time.Minute, HeapMB: 4096})
